@@ -63,6 +63,28 @@ fn main() {
         eprintln!("INCONCLUSIVE property={id} reason=no such check");
         std::process::exit(2);
     };
+    if std::env::var("VERIF_TSAN_SELFTEST").is_ok() {
+        // liveness test of the ThreadSanitizer build (tools/tsan_pass.sh): two threads write one word without
+        // synchronisation; an instrumented build must report it
+        static mut WORD: u64 = 0;
+        let hs: Vec<_> = (0..2)
+            .map(|i| {
+                std::thread::spawn(move || {
+                    for k in 0..100_000u64 {
+                        unsafe {
+                            let p = std::ptr::addr_of_mut!(WORD);
+                            p.write_volatile(p.read_volatile().wrapping_add(k + i));
+                        }
+                    }
+                })
+            })
+            .collect();
+        for h in hs {
+            h.join().ok();
+        }
+        println!("selftest done");
+        std::process::exit(0);
+    }
     vh::common::install_panic_hook();
     {
         // blocked-step supervisor: a harness-driven router step that sleeps without consuming CPU time has halted
